@@ -2,7 +2,9 @@
 from .. import facts as F
 from .. import flow
 from ..absint import core, chars
-from ..absint.core import Const, Agg, Ref, TOP, NONE, some, Domain
+from ..absint.core import Const, Agg, Ref, TOP, NONE, some, Domain, ok, err
+from ..absint.term import TermDomain, Sym, T
+from ..absint.stdmodels import Seq
 from .common import census, anchor
 
 LEVEL = "other"
@@ -11,9 +13,43 @@ LEX = "syntax::lexer::Lexer::<'a>::"
 NEXT = "<syntax::lexer::Lexer<'_> as std::iter::Iterator>::next"
 PAR = "syntax::parser::Parser::<'a>::"
 
-P0 = Const(("pos", "start"))
-PGT = Const(("pos", "advanced"))
+# pos is abstracted to the number of characters consumed since the start of the call: 0, 1, 2 (= two or more)
+def P(k):
+    return Const(("pos", min(k, 2)))
+
+
+def LEN(k):
+    return Const(("len", k))
+
+
+P0 = P(0)
+PGT = P(1)
 POSITIVE = Const(("nat", "positive"))
+
+
+def lexer_roles(facts):
+    """The lexer's primitive accessors, found by what they do (not by name): the one function that assigns Lexer.pos
+    (step), and the functions of the impl that read the source at pos and return Option<char> / Option<(char, char)>."""
+    roles = {"step": None, "peek": None, "peek2": None}
+    writers = set()
+    for b in facts.lib_bodies():
+        for blk, i, st in b.stmts():
+            pl = st["place"]
+            if F.place_fields(pl)[-1:] == ["pos"] and "syntax::lexer::Lexer" in b.local_ty(pl["local"]):
+                writers.add(b.path)
+    if len(writers) == 1:
+        roles["step"] = next(iter(writers))
+    for b in facts.lib_bodies():
+        if not b.path.startswith(LEX) or b.path in writers or "{closure" in b.path or b.promoted >= 0:
+            continue
+        if not flow.calls_named(b, lambda n: n in ("core::str::<impl str>::get", "core::str::<impl str>::chars")):
+            continue
+        rt = b.local_ty(0).replace(" ", "")
+        if rt == "std::option::Option<char>":
+            roles["peek"] = b.path if roles["peek"] is None else "ambiguous"
+        elif rt == "std::option::Option<(char,char)>":
+            roles["peek2"] = b.path if roles["peek2"] is None else "ambiguous"
+    return roles
 
 
 def lexer_bodies(facts):
@@ -24,8 +60,40 @@ class LexDomain(Domain):
     """Abstract lexer: the character stream is generated lazily, one atom of the exact partition per observation;
     `pos` is abstracted to {start, advanced}.  peek / peek2 / step are the only accessors (checked by C12-R1)."""
 
-    def __init__(self, atoms):
+    def __init__(self, atoms, roles=None, facts=None):
         self.reps = [lo for lo, hi in atoms]
+        if roles is None and facts is not None:
+            roles = facts.__dict__.get("_lexer_roles")
+            if roles is None:
+                roles = facts.__dict__["_lexer_roles"] = lexer_roles(facts)
+        roles = roles or {}
+        self.n_step = roles.get("step") or LEX + "step"
+        self.n_peek = roles.get("peek") or LEX + "peek"
+        self.n_peek2 = roles.get("peek2") or LEX + "peek2"
+        self.pos_field = roles.get("pos_field", 1)
+
+    def advance(self, it, st, selfref):
+        """One character consumed: pos k -> k + 1 (saturating at 'two or more')."""
+        selfv = it.read_ref(st, selfref)
+        if isinstance(selfv, Agg):
+            cur = selfv.field(self.pos_field)
+            k = cur.v[1] if isinstance(cur, Const) and isinstance(cur.v, tuple) and cur.v[0] == "pos" else 2
+            st = it.write_ref(st, selfref, selfv.with_field(self.pos_field, P(k + 1)))
+        return st
+
+    @staticmethod
+    def pos_sub(a, b):
+        """Abstract pos_a - pos_b (also the saturating form)."""
+        if not (isinstance(a, Const) and isinstance(a.v, tuple) and a.v[0] == "pos" and isinstance(b, Const) and isinstance(b.v, tuple) and b.v[0] == "pos"):
+            return TOP
+        x, y = a.v[1], b.v[1]
+        if y == 0:
+            return Const(0) if x == 0 else LEN(x)
+        if x == y == 1:
+            return Const(0)
+        if x == 2 and y == 1:
+            return LEN("ge1")
+        return TOP
 
     # ghost state: (cur, nxt) with None = not yet observed
     @staticmethod
@@ -54,6 +122,9 @@ class LexDomain(Domain):
         return "verflow" not in t["msg"]
 
     def binop(self, op, a, b):
+        if op in ("Sub", "SubWithOverflow", "SubUnchecked") and isinstance(a, Const) and isinstance(a.v, tuple) and a.v[:1] == ("pos",):
+            r = self.pos_sub(a, b)
+            return Agg("tuple", None, None, None, (r, Const(False))) if op == "SubWithOverflow" else r
         if a == POSITIVE or b == POSITIVE:
             other = b if a == POSITIVE else a
             if op in ("Add", "AddWithOverflow", "AddUnchecked") and (other == POSITIVE or (
@@ -83,13 +154,13 @@ class LexDomain(Domain):
         return None
 
     def call(self, it, name, args, store, term, frame):
-        if name == LEX + "peek":
+        if name == self.n_peek:
             outs = []
             for st in self.observe(store, 0):
                 cur, _ = self.lex(st)
                 outs.append((NONE if cur == "EOF" else some(Const(cur)), st))
             return outs
-        if name == LEX + "peek2":
+        if name == self.n_peek2:
             outs = []
             for st in self.observe(store, 0):
                 cur, _ = self.lex(st)
@@ -101,17 +172,14 @@ class LexDomain(Domain):
                     n = 0 if nxt == "EOF" else nxt
                     outs.append((some(Agg("tuple", None, None, None, (Const(cur), Const(n)))), st2))
             return outs
-        if name == LEX + "step":
+        if name == self.n_step:
             outs = []
             for st in self.observe(store, 0):
                 cur, nxt = self.lex(st)
                 if cur == "EOF":
                     outs.append((core.UNIT, st))
                     continue
-                st2 = self.setlex(st, nxt, None)
-                selfv = it.read_ref(st2, args[0])
-                if isinstance(selfv, Agg):
-                    st2 = it.write_ref(st2, args[0], selfv.with_field(1, PGT))
+                st2 = self.advance(it, self.setlex(st, nxt, None), args[0])
                 outs.append((core.UNIT, st2))
             return outs
         if name in chars.PREDICATES:
@@ -119,13 +187,11 @@ class LexDomain(Domain):
             if isinstance(v, Const) and isinstance(v.v, int):
                 return [(Const(chars.in_set(v.v, chars.PREDICATES[name])), store)]
             return [(TOP, store)]
-        if name == "core::num::<impl usize>::saturating_sub":
-            a, b = args
-            if a == PGT and b == P0:
-                return [(POSITIVE, store)]
-            if a == b:
-                return [(Const(0), store)]
-            return [(TOP, store)]
+        if name in ("core::num::<impl usize>::saturating_sub", "core::num::<impl usize>::wrapping_sub") and len(args) == 2:
+            return [(self.pos_sub(args[0], args[1]), store)]
+        if name == "core::num::<impl usize>::checked_sub" and len(args) == 2:
+            r = self.pos_sub(args[0], args[1])
+            return [(TOP if r is TOP else some(r), store)]
         return None
 
 
@@ -157,26 +223,33 @@ def r1_who_writes_pos(facts, rep):
             if rv["k"] == "aggregate" and rv["kind"].get("path") == "syntax::lexer::Lexer":
                 writes.append((b, blk, s, "construct"))
     n_step = 0
+    roles = lexer_roles(facts)
+    assigners = sorted({b.path for b, blk, s, kind in writes if kind == "assign"})
+    rep.ob("C12-R1", "single-writer", len(assigners) == 1,
+           "Lexer.pos is assigned in exactly one function (%s)" % ", ".join(assigners) if len(assigners) == 1 else
+           "Lexer.pos is assigned in %d functions: %s; only one primitive may move the lexer" % (len(assigners), ", ".join(assigners)))
+    step_fn = roles.get("step")
+    ctor = sorted({b.path for b, blk, s, kind in writes if kind == "construct"})
     for b, blk, s, kind in writes:
         key = "%s:%s" % (b.path, kind)
         if kind == "construct":
             v = F.const_val(s["rv"]["ops"][fields.index("pos")]) if s["rv"]["ops"][fields.index("pos")]["k"] == "const" else None
-            rep.ob("C12-R1", key, b.path == LEX + "new" and v == 0,
+            rep.ob("C12-R1", key, v == 0 and b.path.startswith(LEX),
                    "a Lexer is constructed in %s with pos = %s" % (b.path, v), b.site(s["span"]))
         elif kind == "mut-borrow":
             rep.ob("C12-R1", key, False, "&mut self.pos is taken in %s" % b.path, b.site(s["span"]))
-        else:
-            okk = b.path == LEX + "step"
-            detail = "pos is assigned in %s" % b.path
-            if okk:
-                n_step += 1
-                okk, detail = _step_increment(b, s, facts)
-            rep.ob("C12-R1", key, okk, detail, b.site(s["span"]), sample={"fn": b.path, "what": detail})
-    rep.floor("C12-R1", "assignments to Lexer.pos in step", n_step, 1)
+        elif b.path == step_fn:
+            n_step += 1
+            okk, detail = _step_increment(b, s, facts)
+            rep.ob("C12-R1", "step:assign", okk, detail, b.site(s["span"]), sample={"fn": b.path, "what": detail})
+    rep.floor("C12-R1", "assignments to Lexer.pos in the stepping primitive", n_step, 1)
     # peek and peek2 look at source.get(pos..)
     for fn in ("peek", "peek2", "step"):
-        b = anchor(rep, "C12-R1", facts, LEX + fn)
+        pth = roles.get(fn)
+        b = facts.fn(pth) if pth and pth != "ambiguous" else None
         if b is None:
+            rep.ob("C12-R1", "anchor:%s" % fn, False, "no unique lexer primitive with the role `%s` (reads the source at pos%s) found: %s" % (
+                fn, ", assigns pos" if fn == "step" else "", pth))
             continue
         gets = flow.calls_named(b, lambda n: n == "core::str::<impl str>::get")
         okk = bool(gets)
@@ -269,8 +342,9 @@ def r2_token_len(facts, rep):
 def r3_progress(facts, rep, tier):
     rep.rule("C12-R3", "abstract run of Lexer::next / next_escape for every atom of the exact character partition "
                        "(atoms = intervals no comparison constant or character predicate of the lexer distinguishes) as "
-                       "first character: every path returns Some(Token) with len > 0 (the lexer advanced), never None, "
-                       "never a panic")
+                       "first character, with pos abstracted to the number of characters consumed since the call began "
+                       "(0, 1, two or more): every path returns Some(Token) whose len is exactly pos_after - pos_before > 0 "
+                       "(whatever helper builds the token), never None, never a panic")
     rep.rule("C12-R4", "next returns None only when the input is exhausted at the start of the call, and then consumes nothing")
     bodies = lexer_bodies(facts)
     consts, preds, unknown = chars.char_constants(bodies)
@@ -283,9 +357,13 @@ def r3_progress(facts, rep, tier):
     body = anchor(rep, "C12-R3", facts, NEXT)
     if body is None:
         return
+    roles = lexer_roles(facts)
+    if not rep.ob("C12-R3", "anchor:accessors", all(v and v != "ambiguous" for v in roles.values()),
+                  "the lexer's primitive accessors, found by what they do: %s" % roles):
+        return
     for escape in (False, True):
         for first in [lo for lo, hi in ats] + ["EOF"]:
-            dom = LexDomain(ats)
+            dom = LexDomain(ats, facts=facts)
             it = core.Interp(facts, dom, budget=400000)
             store = {(0, 0): lexer_value(escape)}
             store = dom.setlex(store, first, None)
@@ -317,8 +395,12 @@ def r3_progress(facts, rep, tier):
                     continue
                 ln = tok.field(0)
                 kinds.add(repr(tok.field(1)))
-                if ln != POSITIVE or pos != PGT:
-                    bad.append("returns a token with len %r (pos %r): the lexer did not advance" % (ln, pos))
+                k = pos.v[1] if isinstance(pos, Const) and isinstance(pos.v, tuple) and pos.v[0] == "pos" else None
+                if not k:
+                    bad.append("returns a token although the lexer did not advance (pos %r)" % (pos,))
+                elif ln != LEN(k):
+                    bad.append("returns a token with len %r after consuming %s character(s): len is not pos - start" % (
+                        ln, "two or more" if k == 2 else k))
             rule = "C12-R4" if first == "EOF" else "C12-R3"
             rep.ob(rule, key, not bad and bool(outs),
                    ("%d path(s), all advance" % len(outs)) if not bad else "; ".join(sorted(set(bad))[:3]), body.site(),
@@ -326,66 +408,161 @@ def r3_progress(facts, rep, tier):
     rep.floor("C12-R3", "character atoms", len(ats), 20)
 
 
+class ParserDomain(TermDomain):
+    """Abstract parser state: the lexer is a stream of fresh symbolic tokens (then None for ever), the queue is a sequence,
+    the tree builder is an effect log."""
+
+    def __init__(self, facts):
+        super().__init__()
+        self.facts = facts
+        self.uninterp = lambda n: facts.fn(n) is None
+
+    def on_assert(self, it, body, t, sp, st, frame):
+        return False
+
+    @staticmethod
+    def token(tag, k):
+        return Agg("adt", "syntax::lexer::Token", 0, "Token", (Sym("%slen%d" % (tag, k)), Sym("%skind%d" % (tag, k))))
+
+    def call(self, it, name, args, store, term, frame):
+        if name == NEXT:
+            if store.get(("eof",)):
+                return [(NONE, store)]
+            k = store.get(("lexed",), 0)
+            s1 = dict(store)
+            s1[("lexed",)] = k + 1
+            s2 = dict(store)
+            s2[("eof",)] = True
+            outs = [(NONE, s2)]
+            if k < 6:
+                outs.append((some(self.token("l", k)), s1))
+            return outs
+        if name.startswith("syntree::Builder") or name.startswith("syntree::builder::Builder"):
+            m = name.rsplit("::", 1)[-1]
+            vals = [it.read_ref(store, a) for a in args[1:]]
+            st = self.with_log(store, (m,) + tuple(vals))
+            if m == "token":
+                return [(ok(Sym("id")), st), (err(Sym("builder_error")), self.with_log(st, ("fail", m)))]
+            if m in ("open", "close", "close_at", "checkpoint", "build"):
+                return [(ok(T("call:" + m, *vals)), st), (err(Sym("builder_error")), self.with_log(st, ("fail", m)))]
+            return [(T("call:" + m, *vals), st)]
+        if name.endswith("as std::cmp::PartialEq>::eq") and len(args) == 2:
+            a, b = it.read_ref(store, args[0]), it.read_ref(store, args[1])
+            if a == b:
+                return [(Const(True), store)]
+            return self.fork(store, T("kind_eq", *sorted((a, b), key=repr)))
+        if name.endswith("as std::cmp::PartialEq>::ne") and len(args) == 2:
+            a, b = it.read_ref(store, args[0]), it.read_ref(store, args[1])
+            if a == b:
+                return [(Const(False), store)]
+            return [(Const(not v.v), s_) for v, s_ in self.fork(store, T("kind_eq", *sorted((a, b), key=repr)))]
+        return super().call(it, name, args, store, term, frame)
+
+    def discr_of(self, v):
+        if isinstance(v, (T, Sym)):
+            return T("discr", v)
+        return None
+
+
+def parser_value(facts, queue):
+    adt = facts.adt("syntax::parser::Parser")
+    names = [f["name"] for f in adt["variants"][0]["fields"]]
+    vals = {"lexer": Agg("adt", "syntax::lexer::Lexer", 0, "Lexer", (Const(("src",)), Const(0), Const(False))),
+            "builder": Sym("builder"), "buf": Seq(queue)}
+    return Agg("adt", "syntax::parser::Parser", 0, "Parser", tuple(vals.get(n, TOP) for n in names)), names
+
+
 def r5_forwarding(facts, rep):
-    rep.rule("C12-R5", "forwarding: Builder::token is called only from Parser::bump with the kind and len of the token at "
-                       "the head of the queue, followed by the only pop_front; Lexer::next is called only from Parser::fill "
-                       "which pushes every token; grammar::root leaves its loop only on EOF after flushing the pending blanks")
-    tok = census(facts, lambda n: n.endswith("Builder::<T, I, W>::token") or (n.startswith("syntree::Builder") and n.endswith("::token")))
+    rep.rule("C12-R5", "forwarding, as an invariant of every Parser method (checked by abstract runs with the lexer as a stream "
+                       "of fresh tokens, the queue as a sequence and the tree builder as an effect log; queue lengths 0..2, "
+                       "small arguments): the tokens handed to Builder::token, followed by the queue afterwards, are exactly the "
+                       "queue before followed by the tokens newly taken from the lexer, in order, each once, with its own kind "
+                       "and len; nothing else reaches Builder::token.  So whatever a grammar function does, the tree's leaves "
+                       "are a prefix of the lexer's tokens in order.  grammar::root leaves its loop only on EOF after flushing "
+                       "the pending blanks")
+    adt = facts.adt("syntax::parser::Parser")
+    if not rep.ob("C12-R5", "anchor:Parser", adt is not None and {"lexer", "builder", "buf"} <= {f["name"] for f in adt["variants"][0]["fields"]},
+                  "struct Parser { lexer, builder, buf } exists"):
+        return
+    # who may touch the queue, the lexer and Builder::token: only Parser methods
+    tok = census(facts, lambda n: (n.startswith("syntree::Builder") or n.startswith("syntree::builder::Builder")) and n.endswith("::token"))
     for b, bid, t, sp, name in tok:
-        rep.ob("C12-R5", "token-caller:%s" % b.path, b.path == PAR + "bump", "Builder::token is called from %s" % b.path, b.site(sp))
+        rep.ob("C12-R5", "token-caller:%s" % b.path, b.path.startswith(PAR), "Builder::token is called from %s" % b.path, b.site(sp))
     rep.floor("C12-R5", "Builder::token call sites", len(tok), 1)
-    bump = anchor(rep, "C12-R5", facts, PAR + "bump")
-    if bump is not None:
-        for b, bid, t, sp, name in [x for x in tok if x[0].path == PAR + "bump"]:
-            kf = flow.slice_back(bump, t["args"][1])
-            lf = flow.slice_back(bump, t["args"][2])
-            srck = {l[1] for l in kf if l[0] == "call"}
-            srcl = {l[1] for l in lf if l[0] == "call"}
-            okk = srck == {PAR + "get"} and srcl == {PAR + "get"}
-            # get(0)
-            for l in kf | lf:
-                if l[0] == "call" and l[1] == PAR + "get":
-                    gt = bump.blocks[l[2]]["term"]["t"]
-                    if not (gt["args"][1]["k"] == "const" and F.const_val(gt["args"][1]) == 0):
-                        okk = False
-            kfld = {l[2][-1] for l in kf if l[0] == "param"} | _payload_fields(bump, t["args"][1])
-            lfld = _payload_fields(bump, t["args"][2])
-            okk = okk and kfld == {"kind"} and lfld == {"len"}
-            rep.ob("C12-R5", "bump:token(kind,len)", okk,
-                   "Builder::token receives %s / %s of %s" % (sorted(kfld), sorted(lfld), sorted(srck | srcl)), bump.site(sp))
-            pops = flow.calls_named(bump, lambda n: "VecDeque" in n and n.endswith("pop_front"))
-            good = len(pops) == 1 and bump.cfg.dominates(bid, pops[0][0])
-            rep.ob("C12-R5", "bump:pop-after-token", good, "exactly one pop_front, dominated by the token call (%d found)" % len(pops),
-                   bump.site(sp))
-    pops = census(facts, lambda n: "VecDeque" in n and (n.endswith("pop_front") or n.endswith("pop_back") or n.endswith("clear")
-                                                       or n.endswith("drain") or n.endswith("truncate")))
-    for b, bid, t, sp, name in pops:
-        if "Parser" in b.path or "syntax::" in b.path:
-            rep.ob("C12-R5", "queue-removal:%s:%s" % (b.path, name.split("::")[-1]), b.path == PAR + "bump" and name.endswith("pop_front"),
-                   "the token queue is shortened by %s in %s" % (name.split("::")[-1], b.path), b.site(sp))
     nxt = census(facts, lambda n: n == NEXT)
     for b, bid, t, sp, name in nxt:
-        rep.ob("C12-R5", "lexer-next-caller:%s" % b.path, b.path == PAR + "fill", "Lexer::next is called from %s" % b.path, b.site(sp))
-    rep.floor("C12-R5", "Lexer::next call sites", len(nxt), 1)
-    fill = anchor(rep, "C12-R5", facts, PAR + "fill")
-    if fill is not None:
-        for b, bid, t, sp, name in [x for x in nxt if x[0].path == PAR + "fill"]:
-            e = flow.ok_edge_generic(fill, bid, 1)
-            pushes = flow.calls_named(fill, lambda n: "VecDeque" in n and n.endswith("push_back"))
-            good = False
-            if e and pushes:
-                sw, some_t, _ = e
-                # every path from the Some edge back to the loop head (or out) passes the push
-                push_blocks = {p[0] for p in pushes}
-                region_exit = set(fill.cfg.returns) | {bid}
-                good = fill.cfg.every_path_passes(some_t, region_exit, push_blocks)
-                # and what is pushed is the token itself
-                for pb, pt, psp, _ in pushes:
-                    ls = flow.slice_back(fill, pt["args"][1])
-                    if not any(l[0] == "call" and l[1] == NEXT for l in ls):
-                        good = False
-            rep.ob("C12-R5", "fill:push-every-token", good, "every token returned by the lexer is pushed to the queue before the next is fetched",
-                   fill.site(sp))
+        rep.ob("C12-R5", "lexer-next-caller:%s" % b.path, b.path.startswith(PAR) or b.path.startswith("<syntax::lexer::Lexer"),
+               "Lexer::next is called from %s" % b.path, b.site(sp))
+    methods = []
+    for b in facts.lib_bodies():
+        if b.path.startswith(PAR) and "{closure" not in b.path and b.promoted < 0 and b.arg_count >= 1 \
+                and b.local_ty(1).replace(" ", "").startswith("&mutsyntax::parser::Parser"):
+            methods.append(b)
+    rep.floor("C12-R5", "Parser methods taking &mut self", len(methods), 6)
+    n_runs = 0
+    for b in sorted(methods, key=lambda x: x.path):
+        mname = b.path[len(PAR):]
+        # argument menus by type
+        menus = []
+        okargs = True
+        for i in range(2, b.arg_count + 1):
+            ty = b.local_ty(i).replace(" ", "")
+            if ty.endswith("parser::Skip"):
+                menus.append([Agg("adt", "syntax::parser::Skip", 0, "Skip", (Const(k),)) for k in (0, 1, 2)])
+            elif ty == "usize":
+                menus.append([Const(k) for k in (0, 1, 2)])
+            elif ty.endswith("parser::Syntax"):
+                menus.append([Sym("want")])
+            elif ty.startswith("&[") and ty.endswith("parser::Syntax]"):
+                menus.append([Seq((Sym("e0"),)), Seq((Sym("e0"), Sym("e1")))])
+            else:
+                menus.append([Sym("arg%d" % i)])
+        combos = [[]]
+        for m in menus:
+            combos = [c + [x] for c in combos for x in m]
+        bad = []
+        n_paths = 0
+        delivered_total = 0
+        for q in (0, 1, 2):
+            queue = tuple(ParserDomain.token("q", k) for k in range(q))
+            for combo in combos:
+                dom = ParserDomain(facts)
+                it = core.Interp(facts, dom, budget=300000)
+                pv, names = parser_value(facts, queue)
+                st = {(0, 0): pv}
+                try:
+                    outs = it.run(b, [Ref(0, 0)] + combo, st)
+                except core.Undecided as e:
+                    bad.append("undecided: %s" % e)
+                    continue
+                n_runs += 1
+                for o in outs:
+                    n_paths += 1
+                    if o.kind != "ret":
+                        if o.kind == "panic":
+                            bad.append("%s %s" % (o.kind, o.value))
+                        continue
+                    log = dom.log(o.store)
+                    if any(e[0] == "fail" for e in log):
+                        continue  # the tree builder failed: the parse is abandoned with the error
+                    pv2 = it.read_ref(o.store, Ref(0, 0))
+                    buf2 = pv2.field(names.index("buf")) if isinstance(pv2, Agg) else None
+                    if not isinstance(buf2, Seq):
+                        bad.append("the queue becomes %r" % (buf2,))
+                        continue
+                    lexed = tuple(ParserDomain.token("l", k) for k in range(o.store.get(("lexed",), 0)))
+                    delivered = tuple(e for e in log if e[0] == "token")
+                    delivered_total += len(delivered)
+                    want = queue + lexed
+                    got = tuple(Agg("adt", "syntax::lexer::Token", 0, "Token", (e[2], e[1])) if len(e) == 3 else e for e in delivered) + buf2.items
+                    if got != want:
+                        bad.append("queue %d, args %r: delivered %s then queue %s; specified the sequence %s" % (
+                            q, combo, [e[1:] for e in delivered], list(buf2.items), list(want)))
+        rep.count("parser method paths", n_paths)
+        rep.ob("C12-R5", "invariant:%s" % mname, not bad, "; ".join(sorted(set(bad))[:3]) if bad else
+               "%s keeps (delivered ++ queue) = (queue ++ newly lexed) on all %d paths (%d token deliveries)" % (mname, n_paths, delivered_total),
+               b.site(), sample={"method": mname, "paths": n_paths, "deliveries": delivered_total})
+    rep.count("parser method runs", n_runs)
     root = anchor(rep, "C12-R5", facts, "syntax::grammar::root")
     if root is not None:
         _root_exit(root, facts, rep)
@@ -492,23 +669,117 @@ def _root_exit(root, facts, rep):
            sample={"exits": detail})
 
 
-def r6_loops(facts, rep):
-    rep.rule("C12-R6", "termination: every cycle of every lexer function contains a call of Lexer::step (or of a lexer "
-                       "helper that was shown to advance); every cycle of Parser::fill/count_skip/skip/eat/bump_until "
-                       "advances its counter or consumes a token")
+class ProgressDomain(LexDomain):
+    """LexDomain + a ghost that records whether the lexer moved since the ghost was cleared."""
+
+    def advance(self, it, st, selfref):
+        st = super().advance(it, st, selfref)
+        st = dict(st)
+        st[("stepped",)] = True
+        return st
+
+
+def _heads(body):
+    cfg = body.cfg
+    hs = set()
+    for b in cfg.reach0:
+        for x in cfg.succ[b]:
+            if cfg.dominates(x, b):
+                hs.add(x)
+    return sorted(hs)
+
+
+def r6_loops(facts, rep, ats):
+    rep.rule("C12-R6", "termination of the lexer, path-sensitively: for every function of the lexer that contains a loop, the graph "
+                       "of abstract states at its loop heads (explored from the function's entry with the abstract character "
+                       "stream; helper calls are followed) has no cycle on which the lexer does not move; so every loop consumes "
+                       "input on each turn or leaves.  The parser's loops are covered by C12-R5's abstract runs (which end)")
+    from .. import cfg as _cfg
     n = 0
     for b in lexer_bodies(facts):
-        cfg = b.cfg
-        steps = {bid for bid, t, sp, nm in flow.calls_named(b, lambda n_: n_ == LEX + "step")}
-        for x in sorted(cfg.reach0):
-            for s in cfg.succ[x]:
-                if cfg.dominates(s, x):  # back edge x -> s
-                    n += 1
-                    good = cfg.every_path_passes(s, {x}, steps) if s != x else (x in steps)
-                    rep.ob("C12-R6", "%s:loop@bb-head#%d" % (b.path.split("::")[-1], n), good,
-                           "loop in %s %s" % (b.path, "steps on every iteration" if good else "has an iteration that does not step"),
-                           b.site(b.blocks[s]["term"]["span"]))
-    rep.floor("C12-R6", "loops in lexer functions", n, 5)
+        if "{closure" in b.path or b.promoted >= 0:
+            continue
+        heads = _heads(b)
+        if not heads:
+            continue
+        n += len(heads)
+        live = getattr(b, "_live", None) or _cfg.liveness(b)
+        b._live = live
+        live_in, addr = live
+        # argument menus: self, then bools both ways, anything else unknown
+        menus = [[Ref(0, 0)]]
+        for i in range(2, b.arg_count + 1):
+            menus.append([Const(False), Const(True)] if b.local_ty(i) == "bool" else [TOP])
+        combos = [[]]
+        for m in menus:
+            combos = [c + [x] for c in combos for x in m]
+        edges = {}
+        nodes = {}
+        bad = []
+        try:
+            for escape in (False, True):
+                for combo in combos:
+                    dom = ProgressDomain(ats, facts=facts)
+                    it = core.Interp(facts, dom, budget=600000)
+                    st0 = {(0, 0): lexer_value(escape)}
+                    work = []
+                    for o in it.run(b, combo, st0, stop=set(heads)):
+                        if o.kind == "stop":
+                            work.append((o.value, o.store))
+                    seen = set()
+                    while work:
+                        h, st = work.pop()
+                        keep = set(live_in[h]) | set(addr)
+                        key = (h, frozenset((k, v) for k, v in st.items() if k[0] != 1 or k[1] in keep if k != ("stepped",)))
+                        if key in seen:
+                            continue
+                        seen.add(key)
+                        nodes[key] = b.site(b.blocks[h]["term"]["span"])
+                        st1 = dict(st)
+                        st1[("stepped",)] = False
+                        for o in it.run(b, combo, {}, start=(h, st1), stop=set(heads)):
+                            if o.kind != "stop":
+                                continue
+                            h2 = o.value
+                            keep2 = set(live_in[h2]) | set(addr)
+                            key2 = (h2, frozenset((k, v) for k, v in o.store.items() if k[0] != 1 or k[1] in keep2 if k != ("stepped",)))
+                            edges.setdefault(key, set()).add((key2, bool(o.store.get(("stepped",)))))
+                            work.append((h2, o.store))
+                        if len(seen) > 4000:
+                            raise core.Undecided("more than 4000 abstract loop states")
+        except core.Undecided as e:
+            rep.ob("C12-R6", "%s:progress" % b.path.split("::")[-1], False, "undecided: %s" % e, b.site())
+            continue
+        # a cycle through non-moving edges only?
+        idle = {u: [v for v, moved in vs if not moved] for u, vs in edges.items()}
+        color = {}
+        cyc = None
+        for root in list(idle):
+            if root in color:
+                continue
+            stack = [(root, iter(idle.get(root, ())))]
+            color[root] = 1
+            while stack and cyc is None:
+                u, itr = stack[-1]
+                for v in itr:
+                    if color.get(v) == 1:
+                        cyc = v
+                        break
+                    if v not in color:
+                        color[v] = 1
+                        stack.append((v, iter(idle.get(v, ()))))
+                        break
+                else:
+                    color[u] = 2
+                    stack.pop()
+            if cyc is not None:
+                break
+        rep.count("lexer loop states", len(nodes))
+        rep.ob("C12-R6", "%s:progress" % b.path.split("::")[-1], cyc is None,
+               "%d loop head(s), %d abstract loop states: every cycle moves the lexer" % (len(heads), len(nodes)) if cyc is None else
+               "a turn of the loop at %s can return to the same state without consuming input" % nodes.get(cyc, "?"),
+               b.site(), sample={"fn": b.path, "heads": len(heads), "states": len(nodes)})
+    rep.floor("C12-R6", "loops in lexer functions", n, 3)
 
 
 def run(fx, rep, tier):
@@ -517,10 +788,10 @@ def run(fx, rep, tier):
     for cfg, facts in fx.items():
         sub = rep if cfg == "dev" else type(rep)(rep.prop, rep.tier)
         r1_who_writes_pos(facts, sub)
-        r2_token_len(facts, sub)
         r3_progress(facts, sub, tier)
         r5_forwarding(facts, sub)
-        r6_loops(facts, sub)
+        consts, preds, unknown = chars.char_constants(lexer_bodies(facts))
+        r6_loops(facts, sub, chars.atoms(consts, preds))
         if sub is not rep:
             for o in sub.obls:
                 o["key"] += "[rel]"
